@@ -320,6 +320,12 @@ pub fn gen_input(rng: &mut Rng, max_len: usize) -> Vec<u8> {
 
 /// list spec (see util::list_from_spec); never empty
 pub fn gen_list_spec(rng: &mut Rng) -> String {
+    // one in eight lists is grown with Extend (from one size, or from the default list) in arbitrary order
+    if rng.chance(1, 8) {
+        let n = rng.range(1, 6);
+        let names = (0..n).map(|_| rng.pick(&CAT).name).collect::<Vec<_>>().join(",");
+        return if rng.chance(1, 2) { format!("ext:{}", names) } else { format!("dflt+:{}", names) };
+    }
     match rng.below(12) {
         0..=3 => "default".into(),
         4..=5 => "all".into(),
